@@ -88,6 +88,10 @@ impl Gen<'_> {
                     if malformed && self.rng.chance(1, 6) {
                         // late element
                         ts = self.lw.unwrap_or(self.cur) - self.rng.range(0, 3);
+                    } else if self.lw.is_some() && self.rng.chance(1, 12) {
+                        // boundary `ts == last watermark`: violates the strict input contract (C06)
+                        // but is accepted by the code (`assert!(ts >= last_watermark)`); tagged `ts=wm`
+                        ts = self.lw.unwrap();
                     } else {
                         ts = ts.max(self.floor());
                     }
